@@ -6254,7 +6254,13 @@ impl Deserialize for bit_vec::BitVec<u32> {
         if numbytes & (1 << 63) != 0 {
             //New format
             numbytes &= !(1 << 63);
-            let mut ret = bit_vec::BitVec::with_capacity(numbytes * 8);
+            let numbits_stored = numbytes.checked_mul(8).ok_or(SavefileError::SizeOverflow)?;
+            if numbits > numbits_stored {
+                return Err(SavefileError::GeneralError {
+                    msg: "BitVec claims to have more bits than it has storage for".to_string(),
+                });
+            }
+            let mut ret = bit_vec::BitVec::with_capacity(numbits_stored);
             unsafe {
                 let num_words = numbytes / 4;
                 let storage = ret.storage_mut();
@@ -6420,7 +6426,13 @@ impl Deserialize for bit_vec08::BitVec<u32> {
         if numbytes & (1 << 63) != 0 {
             //New format
             numbytes &= !(1 << 63);
-            let mut ret = bit_vec08::BitVec::with_capacity(numbytes * 8);
+            let numbits_stored = numbytes.checked_mul(8).ok_or(SavefileError::SizeOverflow)?;
+            if numbits > numbits_stored {
+                return Err(SavefileError::GeneralError {
+                    msg: "BitVec claims to have more bits than it has storage for".to_string(),
+                });
+            }
+            let mut ret = bit_vec08::BitVec::with_capacity(numbits_stored);
             unsafe {
                 let num_words = numbytes / 4;
                 let storage = ret.storage_mut();
